@@ -167,20 +167,24 @@ pub(super) struct TextView<'a, 'input> {
 
 impl<'a> TextView<'a, '_> {
     pub(super) fn view(&self) -> std::borrow::Cow<'a, str> {
-        let first_child = self.inner.first_child().unwrap();
-        if first_child.has_siblings() {
-            let mut s = String::new();
-            for child in self.inner.children() {
-                let child = if child.is_text() {
-                    child.text().unwrap()
-                } else {
-                    continue;
-                };
-                s.push_str(child);
+        // The text of an element is the concatenation of its text nodes; an element without any
+        // text node, e.g. `<ToolTip></ToolTip>` or `<Description/>`, has the empty text.
+        let mut texts = self
+            .inner
+            .children()
+            .filter(roxmltree::Node::is_text)
+            .filter_map(|child| child.text());
+        let first = texts.next().unwrap_or_default();
+        match texts.next() {
+            None => first.into(),
+            Some(second) => {
+                let mut s = String::from(first);
+                s.push_str(second);
+                for text in texts {
+                    s.push_str(text);
+                }
+                s.into()
             }
-            s.into()
-        } else {
-            first_child.text().unwrap().into()
         }
     }
 }
@@ -188,5 +192,24 @@ impl<'a> TextView<'a, '_> {
 impl PartialEq<&str> for TextView<'_, '_> {
     fn eq(&self, rhs: &&str) -> bool {
         &self.view() == rhs
+    }
+}
+
+#[cfg(test)]
+mod tests {
+    use super::*;
+
+    #[test]
+    fn test_text_view() {
+        let document = Document::from_str(
+            "<A><B></B><C/><D>a<!-- comment -->b</D><E><!-- comment --></E><F>text</F></A>",
+        )
+        .unwrap();
+        let mut node = document.root_node();
+
+        for expected in &["", "", "ab", "", "text"] {
+            assert_eq!(node.next_text().unwrap().view(), *expected);
+        }
+        assert!(node.next().is_none());
     }
 }
